@@ -17,7 +17,7 @@ RULE = ("2-4 conditions (PINN/Mean/SingleModule/AdaptiveWeights/Periodic; fresh 
         "driven by the Solver's protocol (training steps: every training condition with the step number; validation steps: "
         "iteration=None; simulated optimiser steps in between); every evaluation is compared with the solo world (same recipe alone, "
         "same weight changes) and with the loss recomputed outside the condition on a twin network. non-trivial = >= 1 evaluation compared; distinct = (condition kinds, sharing pattern, history length)")
-ASSUMPTIONS = ["sharing one sampler object or one model being trained between conditions is not in the property's list and is not generated",
+ASSUMPTIONS = ["one NON-static, non-adaptive sampler object over x may be shared by several conditions (alone, in a product, as non-periodic sampler); shared static / adaptive samplers (stateful by design) and a model being trained are not in the property's list and are not generated",
                "DeepONet leg (20 % of the cases, engine donsim): function sets take their parameters from a DataSampler, so that the loss is a function of weights, function family and trunk points alone"]
 COMPONENTS = {"real": ["torchphysics conditions, samplers, UserFunction"], "owned_by_simulator": ["order of construct/evaluate events", "per-operation draw streams (same in both worlds)"],
               "stubbed_or_disabled": ["closed-form Model"]}
